@@ -237,6 +237,89 @@ fn case<T: DeserializeOwned + Serialize + 'static>(sink: &mut Sink, r: &mut Rng,
         }
         sink.stat(&format!("{}/edited/{}", ty, if first.as_deref() == Some("reject") { "reject" } else { "accept" }));
     }
+    // texts a JSON tree cannot carry: a member given twice (same name, the second time with the same or with
+    // other content), and a member nobody asks for whose content a tree builder would have to evaluate (a
+    // number out of every range, nesting beyond the reader's limit, half a surrogate pair). Every channel that
+    // reads TEXT - string, bytes, readers, in one piece or in portions, the crate's helpers - decides alike.
+    {
+        fn write_odd(v: &Value, path: &[String], cur: &mut Vec<String>, odd: &dyn Fn(&serde_json::Map<String, Value>) -> String, out: &mut String) {
+            match v {
+                Value::Object(m) => {
+                    out.push('{');
+                    let mut first = true;
+                    for (k, x) in m {
+                        if !first {
+                            out.push(',');
+                        }
+                        first = false;
+                        out.push_str(&Value::String(k.clone()).to_string());
+                        out.push(':');
+                        cur.push(k.clone());
+                        write_odd(x, path, cur, odd, out);
+                        cur.pop();
+                    }
+                    if cur.as_slice() == path {
+                        let extra = odd(m);
+                        if !extra.is_empty() {
+                            if !first {
+                                out.push(',');
+                            }
+                            out.push_str(&extra);
+                        }
+                    }
+                    out.push('}');
+                }
+                Value::Array(xs) => {
+                    out.push('[');
+                    for (i, x) in xs.iter().enumerate() {
+                        if i > 0 {
+                            out.push(',');
+                        }
+                        cur.push(format!("#{}", i));
+                        write_odd(x, path, cur, odd, out);
+                        cur.pop();
+                    }
+                    out.push(']');
+                }
+                other => out.push_str(&other.to_string()),
+            }
+        }
+        let mut paths = vec![];
+        object_paths(doc, &mut vec![], &mut paths);
+        if !paths.is_empty() {
+            for round in 0..4 {
+                let path = r.pick(&paths).clone();
+                let pick = r.next() as usize;
+                let kind = round;
+                let deep = format!("{}0{}", "[".repeat(140), "]".repeat(140));
+                let odd = move |m: &serde_json::Map<String, Value>| -> String {
+                    match kind {
+                        0 | 1 => {
+                            // one of the object's own members once more
+                            if m.is_empty() {
+                                return String::new();
+                            }
+                            let (k, x) = m.iter().nth(pick % m.len()).unwrap();
+                            let again = if kind == 0 { x.clone() } else { Value::String("second".into()) };
+                            format!("{}:{}", Value::String(k.clone()), again)
+                        }
+                        2 => format!("\"zz-nobody-asks\":{}", ["1e999", "-1e999", "\"\\ud800\"", "123456789012345678901234567890"][pick % 4]),
+                        _ => format!("\"zz-nobody-asks\":{}", deep),
+                    }
+                };
+                let mut text = String::new();
+                write_odd(doc, &path, &mut vec![], &odd, &mut text);
+                let ans: Vec<(&str, String)> = channels::<T>(&text).into_iter().filter(|(ch, _)| !ch.contains("from_value") && !ch.contains("deserialize")).collect();
+                let replay = format!("decode {} tree-less-{} {}", ty, round, hex(text.as_bytes()));
+                let first = ans[0].1.clone();
+                for (ch, a) in &ans {
+                    sink.oracle(a != "PANIC", "decoder panicked", &replay);
+                    sink.oracle(*a == first, &format!("{}: {} decides or decodes differently than from_str on a text with {}", ty, ch, if round < 2 { "a member given twice" } else { "a member nobody asks for that has unusual content" }), &replay);
+                }
+                sink.stat(&format!("{}/tree-less-{}/{}", ty, round, if first == "reject" { "reject" } else { "accept" }));
+            }
+        }
+    }
     // one op per document for the record (the model's claim is about the request table, see Props/C17)
     sink.op(&format!("strreq-all-owned {}", ty), "true", reference.as_deref() != Some("reject"));
 }
